@@ -160,12 +160,13 @@ pub fn parse_row(line: &str) -> Option<Value> {
     }
 }
 
-fn build_state<P: PT, C: Coll<P>>(h: &Value, ctx: &Ctx) -> C {
+/// None = the path contains an event this kind of collection does not have
+fn build_state<P: PT, C: Coll<P>>(h: &Value, ctx: &Ctx) -> Option<C> {
     let mut c = C::default();
     for e in h.as_array().unwrap() {
-        let _ = apply::<P, C>(&mut c, e, ctx);
+        apply::<P, C>(&mut c, e, ctx)?;
     }
-    c
+    Some(c)
 }
 
 pub fn replay_rows<P: PT, C: Coll<P>>(
@@ -175,6 +176,7 @@ pub fn replay_rows<P: PT, C: Coll<P>>(
     rep: &mut Report,
 ) {
     let mut cache: HashMap<String, Option<C>> = HashMap::new();
+    let mut unsupported_paths: std::collections::HashSet<String> = Default::default();
     // state rows: path -> (tree, accounting) the path must produce
     let mut pre: HashMap<String, (Value, Value, i64)> = HashMap::new();
     let mut line = String::new();
@@ -210,7 +212,12 @@ pub fn replay_rows<P: PT, C: Coll<P>>(
             continue;
         }
         if !cache.contains_key(&key) {
-            let c: C = build_state::<P, C>(&row["h"], ctx);
+            let Some(c) = build_state::<P, C>(&row["h"], ctx) else {
+                cache.insert(key.clone(), None);
+                unsupported_paths.insert(key.clone());
+                rep.skipped_unsupported += 1;
+                continue;
+            };
             // precondition: the replayed path really produced the state the row starts from
             let ok = c.tree(ctx) == ctx.norm_tree(f) && acct(&c.snap()) == *fx;
             rep.states += 1;
@@ -225,7 +232,11 @@ pub fn replay_rows<P: PT, C: Coll<P>>(
             cache.insert(key.clone(), if ok { Some(c) } else { None });
         }
         let Some(c0) = cache.get(&key).unwrap() else {
-            rep.pre_failed += 1;
+            if unsupported_paths.contains(&key) {
+                rep.skipped_unsupported += 1;
+            } else {
+                rep.pre_failed += 1;
+            }
             continue;
         };
         let mut c = c0.clone();
